@@ -76,6 +76,7 @@ class Locals:
         if a.kwarg:
             self.params.add(a.kwarg.arg)
         self._phis: dict = {}
+        self._unpacked: list = []
         self.defs: dict = {}  # name -> [defining expression]
         self.augs: dict = {}  # name -> [AugAssign]
         self.opaque: set = set()  # re-bound by a loop / with / except / walrus / starred or nested unpacking / del
@@ -118,6 +119,17 @@ class Locals:
                 rest = [v for v in vals if not _is_none(v)]
                 if rest:
                     self.defs[nm] = rest
+        # `a, b = pair` where pair is bound once to a tuple display (the result of an expanded helper returning two values)
+        pending, self._unpacked = self._unpacked, []
+        for target, value in pending:
+            d = self.defs.get(value.id, [])
+            if len(d) == 1 and isinstance(d[0], (ast.Tuple, ast.List)) and len(d[0].elts) == len(target.elts) and value.id not in self.opaque \
+                    and value.id not in self.augs and value.id not in self.params and not any(isinstance(e, ast.Starred) for e in d[0].elts):
+                self._bind(target, d[0])
+            else:
+                self._opaque(target)
+        for target, _v in self._unpacked:
+            self._opaque(target)
         self._collected()
 
     def _collected(self):
@@ -172,6 +184,8 @@ class Locals:
                 and not any(isinstance(e, ast.Starred) for e in list(target.elts) + list(value.elts)):
             for t, v in zip(target.elts, value.elts):
                 self._bind(t, v)
+        elif isinstance(target, (ast.Tuple, ast.List)) and isinstance(value, ast.Name) and not any(isinstance(e, ast.Starred) for e in target.elts):
+            self._unpacked.append((target, value))  # `a, b = pair`: decided when every definition is known
         elif isinstance(target, (ast.Tuple, ast.List, ast.Starred)):
             self._opaque(target)
         # stores into attributes / subscripts bind no local
